@@ -416,6 +416,9 @@ func (p *Processor) ChargingDataRelease(
 		return problemDetails
 	}
 
+	// the session is over: its reference designates nothing any more
+	delete(ue.Cdr, chargingSessionId)
+
 	return nil
 }
 
